@@ -335,11 +335,14 @@ pub fn run_check(prop: &str, tier: Tier, seed: u64, runs: Option<u64>, workers: 
         violation_lines.len(),
         known_hits.len()
     );
-    if harness_error {
-        return 2;
-    }
+    // a violation that was confirmed from its replay file in a fresh process stands, whatever else
+    // went wrong in the run (e.g. another signature of a state-dependent failure that could not be
+    // reproduced alone): exit 1. A harness error alone is exit 2 and never prints VIOLATION.
     if !violation_lines.is_empty() {
         return 1;
+    }
+    if harness_error {
+        return 2;
     }
     0
 }
